@@ -16,7 +16,7 @@ import json
 import math
 import subprocess
 import sys
-from multiprocessing import Pool
+from concurrent.futures import ProcessPoolExecutor
 
 import numpy as np
 import scipy.stats as st
@@ -168,10 +168,13 @@ def moments_of(kind, d):
 
 
 def run_job(arg):
-    exe, job = arg
+    exe, job, tmo = arg
     name, params, n, seed, support = job["name"], job["params"], job["n"], job["seed"], job["support"]
     line = job["line"]
-    p = subprocess.run([exe, "stat"], input=(line + "\n").encode(), stdout=subprocess.PIPE, stderr=subprocess.PIPE)
+    try:
+        p = subprocess.run([exe, "stat"], input=(line + "\n").encode(), stdout=subprocess.PIPE, stderr=subprocess.PIPE, timeout=tmo)
+    except subprocess.TimeoutExpired:
+        return {"line": line, "fails": ["the sampler did not return %d samples within %d s" % (job["n"], tmo)], "rc": 124}
     res = {"line": line, "fails": [], "rc": p.returncode}
     if p.returncode != 0:
         res["fails"].append("driver exit code %d: %s" % (p.returncode, p.stderr.decode("utf-8", "replace")[-300:]))
@@ -234,6 +237,9 @@ def run_job(arg):
             pm = lambda k: float(d.pmf(k))
             a = int(max(d.support()[0], vals.min() - 1))
             b = int(vals.max() + 1)
+            if b - a > 2000000:
+                res["fails"].append("values spread over %d integers (%d .. %d)" % (b - a, a, b))
+                return res
             ks_ = list(range(a, b + 1))
         obs = {int(v): int(c) for v, c in zip(vals, counts)}
         exp = {k: pm(k) * n for k in ks_}
@@ -269,9 +275,10 @@ def run_job(arg):
 
 def main():
     spec = json.load(sys.stdin)
-    args = [(spec["exe"], j) for j in spec["jobs"]]
-    with Pool(spec.get("workers", 8)) as pool:
-        out = pool.map(run_job, args, chunksize=1)
+    args = [(spec["exe"], j, spec.get("timeout", 600)) for j in spec["jobs"]]
+    # (a worker that dies raises BrokenProcessPool here instead of hanging the whole run)
+    with ProcessPoolExecutor(max_workers=spec.get("workers", 8)) as pool:
+        out = list(pool.map(run_job, args, chunksize=1))
     json.dump(out, sys.stdout)
 
 
